@@ -460,6 +460,37 @@ def api_dump(c, point, cheap, names=None, nodes=None, mode='full'):
     return out
 
 
+def tbuckets(x, point):
+    """constant part, phasor per angular frequency and Laplace image of the rest of a time-domain
+    expression (own classification and table), or None"""
+    try:
+        xs = sp.sympify(getattr(x, 'sympy', x))
+    except Exception:
+        return None
+    d = tform(xs)
+    if d is None:
+        return None
+    dc, ac, tr = sp.Integer(0), {}, sp.Integer(0)
+    for m, c in d.items():
+        cl = classify(m)
+        if cl[0] == 'dc':
+            dc += c
+        elif cl[0] == 'ac':
+            w = fr(cl[1])
+            re_, im_ = ac.get(w, (sp.Integer(0), sp.Integer(0)))
+            if parse_monomial(m)['trig'][0] == 'cos':
+                re_ += c
+            else:
+                im_ -= c
+            ac[w] = (re_, im_)
+        else:
+            li = my_laplace(c * m, point['s'])
+            if li is None:
+                return None
+            tr += li
+    return {'dc': fr(dc), 'ac': {w: [fr(v[0]), fr(v[1])] for w, v in ac.items()}, 'tr': fr(tr)}
+
+
 def sub_results(c, point):
     """per analysis kind the reported node voltages and currents (SubNetlist level)"""
     out = {}
@@ -470,6 +501,11 @@ def sub_results(c, point):
             d['Vdict'] = {str(k): val(v, point) for k, v in sn.mna._Vdict.items()}
             d['Idict'] = {str(k): val(v, point) for k, v in sn.mna._Idict.items()}
             d['node_index'] = {str(n): int(sn.mna._node_index(n)) for n in sn.nodes}
+            if str(kind) == 'time':
+                # a time-domain analysis holds every signal kind at once: split the results for the comparison
+                # with the per-kind systems of the full circuit
+                d['Vbk'] = {str(k): tbuckets(v, point) for k, v in sn.mna._Vdict.items()}
+                d['Ibk'] = {str(k): tbuckets(v, point) for k, v in sn.mna._Idict.items()}
         except Exception as e:
             d['solve_error'] = type(e).__name__ + ': ' + str(e)[:120]
         out[keystr(kind)] = d
